@@ -428,6 +428,31 @@ def run_unit(unit, tier, keep=False, verbose=False):
             cmd += ['--sat-solver', 'cadical']
         elif solver in ('z3', 'cvc5'):
             cmd += ['--' + solver]
+        if unit.get('only'):
+            # control-only unit: ask CBMC only for the obligations this unit attributes (same formula, far fewer goals)
+            props = list_properties(gb2, checks + unit.get('cbmc_flags', []) + ['--unwind', str(unit.get('unwind', 70)), '--unwinding-assertions', '--object-bits', str(obits)] + (['--unwindset', ','.join(uws)] if uws else []), scratch)
+            if props is None:
+                res['status'] = 'UNDECIDED'
+                res['why'] = 'cannot list properties'
+                return res
+            npost0 = {}
+            for n0, d0, sl0 in props:
+                f0, c0 = classify(n0)
+                if c0 == 'postcondition':
+                    npost0[f0] = npost0.get(f0, 0) + 1
+            pats = [re.compile(x) for x in unit['only']]
+            sel = []
+            for n0, d0, sl0 in props:
+                o0 = obligation_record(dict(unit, _npost=npost0), {'property': n0, 'description': d0, 'sourceLocation': sl0, 'status': 'UNKNOWN'})
+                if any(p.search(o0['key']) for p in pats) or o0['class'] == 'unwind':
+                    sel.append(n0)
+            if not sel:
+                res['status'] = 'UNDECIDED'
+                res['why'] = "'only' patterns select no obligation"
+                return res
+            for n0 in sel:
+                cmd += ['--property', n0]
+            res['selected_properties'] = len(sel)
         cmd += ([] if os.environ.get('VERIF_NOTRACE') else ['--trace']) + ['--json-ui', '--verbosity', '8']
         res['cmds'].append(' '.join(cmd))
         res['backend'] = solver or 'minisat (cbmc default)'
@@ -539,6 +564,18 @@ def run_unit(unit, tier, keep=False, verbose=False):
             shutil.rmtree(scratch, ignore_errors=True)
 
 
+
+def list_properties(gb, flags, scratch):
+    """[(name, description, sourceLocation)] of the goto binary under the given check flags."""
+    rc, txt, _ = run(['cbmc', gb] + flags + ['--show-properties', '--json-ui'], scratch, 600, mem_gb=8)
+    try:
+        for m in json.loads(txt[txt.index('['):]):
+            if 'properties' in m:
+                return [(p['name'], p.get('description', ''), p.get('sourceLocation', {})) for p in m['properties']]
+    except Exception:
+        pass
+    return None
+
 def run_cover(unit, scratch, uws, timeout, mem):
     out = {'status': 'OK', 'why': '', 'covers': []}
     gb, txt = compile_unit(unit, scratch, cover=True)
@@ -561,6 +598,11 @@ def run_cover(unit, scratch, uws, timeout, mem):
         cmd += ['--external-sat-solver', 'kissat']
     elif solver == 'cadical':
         cmd += ['--sat-solver', 'cadical']
+    props = list_properties(gb2, cmd[2:], scratch)
+    if props:
+        goals0 = [n0 for n0, d0, sl0 in props if d0.startswith('COVER ') and sl0.get('function') == unit['harness']]
+        for n0 in goals0:
+            cmd += ['--property', n0]
     cmd += ['--json-ui']
     outp = os.path.join(scratch, 'cover.json')
     rc, _, _ = run(cmd, scratch, timeout, mem_gb=mem, out=outp)
